@@ -36,6 +36,8 @@ SOURCE = [
     "                e = d",
     "    return a",
     "",
+    "    tail = a  # a statement whose context lines include the blank line above",
+    "",
 ]
 SHORT = "wrong type here"
 LONG = ("this label is rather long because it explains in many short words what exactly went wrong with the expression that is marked above "
@@ -79,6 +81,7 @@ def run(ctx: Ctx) -> bool:
         for c1, c2 in cols:
             cases.append(((line_no, c1), (line_no, c2)))
     cases += [((1, 4), (2, 9)), ((2, 4), (3, 20)), ((4, 16), (7, 21)), ((5, 24), (6, 25)), ((1, 0), (8, 12))]
+    cases += [((10, 4), (10, 8)), ((8, 4), (10, 12))]  # a blank line among the context lines / inside the span
     bad = []
     n = 0
     try:
